@@ -98,3 +98,5 @@ func verifBareConn(cfg *Config, isClient bool) *Conn {
 // cipher suites (the datagram stack's empty cookie vector)
 const vhsHeaderLen = 4
 const vhsHelloExtra = 0
+
+func verifMarkComplete(c *Conn) { c.handshakeStatus = 1 }
